@@ -108,6 +108,10 @@ impl UnitOut {
         }
         true
     }
+    /// set the current case without announcing it (used when results of a batch are judged)
+    pub fn begin_case_quiet(&mut self, idx: u64) {
+        self.cur_case = idx;
+    }
     pub fn describe_case(&mut self, desc: &str) {
         if self.isolate {
             let mut so = std::io::stdout().lock();
